@@ -28,6 +28,10 @@ class AxisLoc(Contract):
                 yield {"name": "scalar-%s-%s" % (kind, order), "val": "scalar", "kind": kind, "order": order, "tol": False}
                 yield {"name": "scalar-tol-%s-%s" % (kind, order), "val": "scalar", "kind": kind, "order": order, "tol": True}
                 yield {"name": "array-%s-%s" % (kind, order), "val": "array", "kind": kind, "order": order, "tol": False}
+                if kind == "i":
+                    # labels of ANOTHER kind than the axis: fractional floats requested on an integer axis must be reported
+                    # absent, never matched to a truncated label
+                    yield {"name": "array-i-floatlabels-%s" % order, "val": "array", "kind": kind, "order": order, "tol": False, "req_kind": "f"}
                 yield {"name": "mask-%s-%s" % (kind, order), "val": "mask", "kind": kind, "order": order, "tol": False}
                 for ln in (0, 1, 2):
                     yield {"name": "list%d-tol-%s-%s" % (ln, kind, order), "val": "tollist", "len": ln, "kind": kind, "order": order, "tol": True}
@@ -52,7 +56,7 @@ class AxisLoc(Contract):
         if case["val"] == "scalar":
             env["val"] = S.label("val", lk)
         elif case["val"] == "array":
-            env["val"] = S.array1d("val", case["kind"])
+            env["val"] = S.array1d("val", case.get("req_kind", case["kind"]))
         elif case["val"] == "mask":
             env["val"] = S.array1d("val", "b", n=S.n(values))
         elif case["val"] == "tollist":
@@ -163,6 +167,8 @@ def _axisloc_bind(self_axis, val, tol=None, issorted=False, mode="raise"):
     if order is None:
         raise NotImplementedError("axis without an order tag")
     tolv = tol or getattr(self_axis, "_tol", None)
+    if tolv is not None and kind not in "fi":
+        tolv = None            # AxisLoc's own contract: a tolerance is ignored on non-numeric axes
     case = {"name": "bound", "kind": kind, "order": order, "tol": tolv is not None}
     env = {"values": values, "axis": self_axis, "tol": tolv, "val": val}
     if type(val) is slice:
@@ -179,7 +185,12 @@ def _axisloc_bind(self_axis, val, tol=None, issorted=False, mode="raise"):
     elif hasattr(val, "dtype") and getattr(val, "ndim", 0) == 1:
         case["val"] = "mask" if val.dtype.kind == "b" else "array"
         if case["val"] == "array" and tolv is not None:
-            raise NotImplementedError("array with tolerance")
+            from dverif.sym import conc
+            ln = conc(val._shape[0])
+            if ln is None or kind not in "fi":
+                raise NotImplementedError("array of symbolic length with tolerance")
+            case.update(val="tollist", len=ln)
+            env["val"] = [val[k] for k in range(ln)]
     elif isinstance(val, (list, tuple)):
         raise NotImplementedError("python list")
     elif val is None:
@@ -199,6 +210,8 @@ def _axisloc_fresh(self, S, case, env):
         return env["val"]
     if case["val"] == "slice":
         return slice(S.fresh_int(f + ".istart"), S.fresh_int(f + ".istop"), case["step"])
+    if case["val"] == "tollist":
+        return [S.fresh_int("%s.pos%d" % (f, k)) for k in range(case["len"])]
     raise NotImplementedError(case["val"])
 
 
@@ -273,7 +286,12 @@ def make_index(S, kind, labels_d, lkind, d, position=False, tol=None):
     order = {"slice": "inc", "slice-rev": "inc"}.get(kind, "unique") if lkind != "O" else "unique"
     case = {"name": "dim%d" % d, "kind": lkind, "order": order, "tol": False}
     env = {"values": labels_d, "tol": None}
-    if kind == "scalar-tol":
+    if kind == "tollist":
+        # a LIST of labels with tol= : Axis.loc answers with a Python list of positions (not an ndarray)
+        env["val"] = [S.label("%s.%d" % (nm, k), lk) for k in range(2)]
+        env["tol"] = tol
+        case.update(val="tollist", len=2, tol=True)
+    elif kind == "scalar-tol":
         env["val"] = S.label(nm, lk)
         env["tol"] = tol
         case.update(val="scalar", tol=True)
@@ -281,7 +299,7 @@ def make_index(S, kind, labels_d, lkind, d, position=False, tol=None):
         env["val"] = S.label(nm, lk)
         case["val"] = "scalar"
     elif kind == "array":
-        env["val"] = S.array1d(nm, lkind)
+        env["val"] = S.array1d(nm, "f" if lkind == "i" else lkind)     # on an int axis: labels of float kind (a superset of int requests)
         case["val"] = "array"
     elif kind == "mask":
         env["val"] = S.array1d(nm, "b", n=n)
@@ -337,6 +355,9 @@ class GetIndices(Contract):
                             continue      # axis=0 / axis='x0' with the first dimension is the default spelling
                         yield {"name": "r%d-%s-%s-%s" % (rank, "+".join(kinds) or "none", sp, mode), "rank": rank,
                                "kinds": list(kinds), "spelling": sp, "indexing": mode}
+        for kinds in (["tollist"], ["tollist", "tollist"], ["tollist", "full"], ["scalar-tol", "tollist"]):
+            yield {"name": "r%d-%s-tuple-label-tol" % (len(kinds), "+".join(kinds)), "rank": len(kinds), "kinds": kinds,
+                   "spelling": "tuple", "indexing": "label", "tol": True}
         for rank in (1, 2):
             for d in range(rank):
                 kinds = ["full"] * rank
@@ -531,6 +552,9 @@ class GetItem(Contract):
                 for mode in ("label", "position"):
                     yield {"name": "r%d-%s-%s" % (rank, "+".join(kinds) or "none", mode), "rank": rank,
                            "kinds": list(kinds), "spelling": "tuple", "indexing": mode}
+        for kinds in (["tollist", "tollist"], ["tollist", "full"], ["scalar-tol", "tollist"]):
+            yield {"name": "r%d-%s-label-tol" % (len(kinds), "+".join(kinds)), "rank": len(kinds), "kinds": kinds,
+                   "spelling": "tuple", "indexing": "label", "tol": True}
         if tier == "quick":
             for kinds in (("array", "scalar", "mask"), ("slice", "array", "full"), ("scalar", "full", "array"),
                           ("mask", "slice-rev", "scalar"), ("scalar", "scalar", "scalar")):
@@ -826,6 +850,19 @@ class SetItem(Contract):
                             yield {"name": "r%d-%s-%s-%s-%s" % (rank, "+".join(kinds), mode, value, "inplace" if inplace else "copy"),
                                    "rank": rank, "kinds": list(kinds), "spelling": "tuple", "indexing": mode,
                                    "value": value, "inplace": inplace, "cast": False, "data_kind": "f"}
+        # writes through a tolerance: Axis.loc then answers with Python LISTS of positions on each dimension
+        for kinds in (["tollist", "tollist"], ["tollist", "full"], ["scalar-tol", "tollist"], ["tollist"]):
+            for value in ("scalar", "array"):
+                for inplace in (True, False):
+                    yield {"name": "r%d-%s-label-tol-%s-%s" % (len(kinds), "+".join(kinds), value, "inplace" if inplace else "copy"),
+                           "rank": len(kinds), "kinds": kinds, "spelling": "tuple", "indexing": "label", "tol": True,
+                           "value": value, "inplace": inplace, "cast": False, "data_kind": "f"}
+        if tier == "quick":
+            # rank 3 at quick tier: mixes where NumPy's own placement rule for advanced indices would matter
+            for kinds in (["scalar", "slice", "array"], ["array", "scalar", "mask"], ["slice", "array", "scalar"], ["array", "full", "array"]):
+                for value in ("scalar", "array"):
+                    yield {"name": "r3-%s-position-%s-inplace" % ("+".join(kinds), value), "rank": 3, "kinds": kinds, "spelling": "tuple",
+                           "indexing": "position", "value": value, "inplace": True, "cast": False, "data_kind": "f"}
         for kinds in (["scalar"], ["array"], ["mask"], ["slice"], ["full", "array"]):
             for dk, vk in (("I", "f"), ("I", "i"), ("f", "i")):
                 yield {"name": "r%d-%s-cast-%s<-%s" % (len(kinds), "+".join(kinds), dk, vk), "rank": len(kinds), "kinds": kinds,
@@ -850,8 +887,9 @@ class SetItem(Contract):
         else:
             arr, labels, data = make_dimarray(S, rank, index_orders(case["kinds"]) if not pos else None, data_kind=case["data_kind"])
             idx, subs = [], []
+            tolv = S.real("tol") if case.get("tol") else None
             for d, k in enumerate(case["kinds"]):
-                i, sc, se = make_index(S, k, labels[d], DIM_KINDS[d], d, position=pos)
+                i, sc, se = make_index(S, k, labels[d], DIM_KINDS[d], d, position=pos, tol=tolv)
                 if k == "array" and not pos:
                     assume_order(S, i, "unique")       # a list index that names each label once (read-back is then well defined)
                 elif k == "array":
@@ -860,6 +898,8 @@ class SetItem(Contract):
                 idx.append(i)
                 subs.append((sc, se))
             env = {"arr": arr, "labels": labels, "idx": idx, "subs": subs, "indices": tuple(idx), "kwargs": {"indexing": case["indexing"]}}
+            if tolv is not None:
+                env["kwargs"]["tol"] = tolv
         arr.attrs["units"] = "K"
         env["attrs0"] = dict(arr.attrs)
         env["data"] = arr.values
@@ -878,6 +918,8 @@ class SetItem(Contract):
                     shape.append(S.n(env["idx"][d]))
                 elif k == "mask":
                     shape.append(S.n(S.mask_positions(env["idx"][d])))
+                elif k == "tollist":
+                    shape.append(len(env["idx"][d]))
                 elif k.startswith("slice"):
                     sl = env["idx"][d]
                     shape.append(slice_count(S, n, sl.start, sl.stop, sl.step)[1])
@@ -950,7 +992,17 @@ class SetItem(Contract):
             if case["value"] == "scalar":
                 yield "addressed-cells-hold-the-value", S.forall_nd(shape, lambda *ks: S.same(S.at(new, *src(ks)), v))
             else:
-                yield "addressed-cells-hold-the-value", S.forall_nd(shape, lambda *ks: S.same(S.at(new, *src(ks)), S.at(v, *ks)))
+                # with an array value the clause needs an index that names each cell once (two labels within tolerance of the
+                # same axis label address the same cell twice; the last write wins and read-back is not well defined)
+                once = []
+                for d in kept:
+                    e = pos[d]
+                    if isinstance(e, list):
+                        once += [e[a] != e[b] for a in range(len(e)) for b in range(a + 1, len(e))]
+                    elif S.is_array(e) and S.kind(e) != "b":      # (tol == 0 is "no tolerance": the positions come as an array)
+                        once.append(S.forall2(0, S.n(e), lambda a, b, e=e: S.at(e, a) != S.at(e, b)))
+                yield "addressed-cells-hold-the-value", S.implies(S.land(*once), lambda: S.forall_nd(
+                    shape, lambda *ks: S.same(S.at(new, *src(ks)), S.at(v, *ks))))
 
             def addressed(p):
                 return S.land(*[sels[d][2](p[d]) for d in range(rank)])
